@@ -147,10 +147,11 @@ def pmap(fn, items, nproc=None, chunksize=4):
 
 def _retarget(nodes, k, repl):
     """replace node k (1-based) by `repl`: an int (use that earlier node instead) or a leaf dict; drop dead nodes"""
-    new = [dict(n, d=list(n['d'])) for n in nodes]
+    new = [dict(n, d=list(n['d']), sh=list(n['sh'])) for n in nodes]
     if isinstance(repl, int):
         for n in new[k:]:
             n['d'] = [repl if x == k else x for x in n['d']]
+            n['sh'] = [-repl if x == -k else x for x in n['sh']]     # loop dependent axis lengths refer to nodes as -position
         if k == len(new):      # replacing the root by an operand: root becomes that operand
             new = new[:repl]
     else:
@@ -165,12 +166,14 @@ def _retarget(nodes, k, repl):
             continue
         live.add(x)
         stack.extend(new[x - 1]['d'])
+        stack.extend(-x for x in new[x - 1]['sh'] if x < 0)
     order = sorted(live)
     remap = {old: i + 1 for i, old in enumerate(order)}
     out = []
     for old in order:
         n = dict(new[old - 1])
         n['d'] = [remap[x] for x in n['d']]
+        n['sh'] = [-remap[-x] if x < 0 else x for x in n['sh']]
         out.append(n)
     return out
 
@@ -205,7 +208,7 @@ def shrink(nodes, outcome, want, max_rounds=6):
                         cands.append(_retarget(cur, k, dpos))   # a closed operand becomes the root
                 elif dn['sh'] == n['sh'] and dn['dt'] == n['dt']:
                     cands.append(_retarget(cur, k, dpos))
-            if k != len(cur) and n.get('cl', True) and all(s > 0 for s in n['sh']):
+            if k != len(cur) and n.get('cl', True) and all(s > 0 for s in n['sh']) and not any(-k in m['sh'] for m in cur):
                 cands.append(_retarget(cur, k, _const_leaf(n)))
         cands = [c for c in cands if len(c) < len(cur) or sum(1 for n in c if n['d']) < sum(1 for n in cur if n['d'])]
         seen = set()
@@ -249,3 +252,50 @@ def corpus(rep, rng, tag, k, *, quick, need_arg=True, core_leaves='{1, 2, 13, 14
         sel += select(generate(rep, tag + '-' + name, EmitMin=2, simulate=sim, depth=kw['MaxNodes'] + 1, seed=rep.seed + 13, **kw), k // 6, rng)
     rep.constants['ExprBuilder'] = dict(exhaustive_programs=len(progs), simulate_programs=len(sims), loop_programs=len(loops), selected=len(sel))
     return sel
+
+
+# ---------------------------------------------------------------------------
+# dedicated vocabularies for the constructors outside the base (bool/int/float, static shape) vocabulary; the base
+# corpus above is unchanged by them.  One TLC -simulate run serves all requested families (the family is chosen in the
+# initial state of ExprBuilder).
+EXT_FAMILIES = {
+    # complex dtype
+    'cx': dict(Ops='{"FloatToComplex","Real","Imag","Conjugate","Multiply","Add","Negative","Power","Absolute","Reciprocal","Sum","Product","Inflate","Take","Diagonalize",'
+                   '"TakeDiag","Transpose","InsertAxis","Ravel","Unravel","Determinant","Inverse","Equal","Choose","LoopSum","LoopConcat"}',
+               LeafSet='{1, 2, 13, 14, 22, 41, 42, 43, 44, 45, 47, 48, 49, 50, 51}', MaxOps=5, MaxNodes=10, MaxLeaves=4),
+    # Einsum under Transpose / InsertAxis (the absorb rules of _optimized_for_numpy), integer and complex operands
+    'einsum': dict(Ops='{"Einsum","Transpose","InsertAxis","Multiply","Sum","Take","IntToFloat","FloatToComplex","LoopSum"}',
+                   LeafSet='{1, 2, 7, 12, 13, 17, 22, 25, 28, 43}', MaxOps=4, MaxNodes=8, MaxLeaves=4),
+    # polynomials (nutils_poly): 1 and 2 variables
+    'poly': dict(Ops='{"Polyval","PolyMul","PolyGrad","PolyDegree","PolyNCoeffs","Legendre","InsertAxis","Take","Multiply","Add","Sum","Transpose","LoopSum","IntToFloat"}',
+                 LeafSet='{1, 2, 4, 7, 13, 16, 22, 26, 27, 30, 53, 54, 55, 56, 57}', MaxOps=4, MaxNodes=8, MaxLeaves=4),
+    # sorting / searching / unique / offsets
+    'search': dict(Ops='{"SearchSorted","ArgSort","UniqueMask","UniqueInverse","SizesToOffsets","CompressIndices","Find","Take","BoolToInt","Sum","InsertAxis","Unravel","Multiply","Add","LoopConcat"}',
+                   LeafSet='{4, 5, 13, 15, 16, 17, 20, 21, 22, 24, 27, 37, 38, 39}', MaxOps=5, MaxNodes=9, MaxLeaves=4),
+    # loop dependent axis lengths (element dependent block sizes)
+    'dyn': dict(Ops='{"RangeN","InsertAxisN","LoopConcat","LoopSum","Take","Inflate","Multiply","Add","IntToFloat","Sum","Negative","InsertAxis","Diagonalize","Power"}',
+                LeafSet='{1, 4, 8, 13, 22, 23, 39}', MaxOps=5, MaxNodes=9, MaxLeaves=4),
+}
+EXT_MARK = {
+    'cx': lambda p: any(n['dt'] == 'c' for n in p),
+    'einsum': lambda p: any(n['op'] == 'Einsum' for n in p),
+    'poly': lambda p: any(n['op'] in ('PolyMul', 'PolyGrad', 'PolyDegree', 'PolyNCoeffs', 'Legendre') or n['op'] == 'Polyval' and p[n['d'][1] - 1]['sh'][-1:] == [2] for n in p),
+    'search': lambda p: any(n['op'] in ('SearchSorted', 'ArgSort', 'UniqueMask', 'UniqueInverse', 'SizesToOffsets', 'CompressIndices', 'Find') for n in p),
+    'dyn': lambda p: any(any(x < 0 for x in n['sh']) for n in p),
+}
+
+
+def extended(rep, rng, tag, names, k_each, *, quick, need_arg=False, simulate=None, families=None):
+    """programs over the extended vocabulary: returns dict name -> selected programs (each uses the family's
+    characteristic constructors)"""
+    fams = dict(EXT_FAMILIES, **(families or {}))
+    rng = random.Random(rep.seed + 1717)     # own stream: the selection of the base corpus is independent of the extended families
+    per = generate_multi(rep, tag, [fams[n] for n in names], EmitMin=2, simulate=simulate or (60 * len(names) if quick else 1500 * len(names)),
+                         depth=max(fams[n]['MaxNodes'] for n in names) + 1, seed=rep.seed + 17)
+    out = {}
+    for n, ps in zip(names, per):
+        mark = next((EXT_MARK[m] for m in EXT_MARK if n.startswith(m)), None)   # 'cxdiff', 'dynsparse', ... share the mark of their prefix
+        ps = [p for p in ps if mark is None or mark(p)]
+        out[n] = select(ps, k_each, rng, need_arg=need_arg)
+        rep.constants['extended:' + n] = dict(generated=len(ps), selected=len(out[n]))
+    return out
